@@ -118,7 +118,7 @@ def make_functions(template, log, fail_at=None):
                 log.append(_fs.name)
                 nth = len(log)
             if fail_at is not None:
-                fail_at(_fs.name, nth)
+                fail_at(_fs.name, nth, args)
             args = [tolist(a) for a in args]
             outs = _outputs_of(_fi, _fs, args)
             return tuple(outs) if len(outs) > 1 else outs[0]
